@@ -284,7 +284,10 @@ def trim_table(chk, w):
     loops = cf.natural_loops()
     it = absint.Interp(w, b, models=effects.EXTRA_MODELS, summaries=C.summaries(w))
     rows = set()
-    if len(loops) == 1:
+    has_split_last = any((cfgmod.callee(t_) or "").endswith("split_last") for _, t_ in cfgmod.calls(b))
+    if len(loops) == 1 and not has_split_last:
+        ok, rows = _trim_countdown(w, b, cf, it, list(loops)[0])
+    elif len(loops) == 1:
         h = list(loops)[0]
         pre = [o for o in it.run(0, stop=[h]) if o.kind == "stop"]
         entry_ok = bool(pre) and pre[0].value_at((("L", 1),)) in (absint.SYM("arg1"), ("ref", (("A", 1),)))
@@ -316,3 +319,49 @@ def trim_table(chk, w):
     chk.ob("R14.4", "trim:drops-only-trailing-zeros", ok,
            "trim_end_zeros derives the step table %s; specification: empty -> return, last != 0 -> return unchanged, last == 0 -> continue without the last element "
            "(only zeros at the end may be dropped, because decoding pads with zeros at the end)" % sorted(rows), site=C.site(b), sample={"rows": sorted(map(str, rows))})
+
+
+def _trim_countdown(w, b, cf, it, h):
+    """second recognised idiom: `let mut len = w.len(); while len > 0 && w[len - 1] == 0 { len -= 1 }; &w[..len]`.
+    Step table over (len, element at len-1): len == 0 -> return the prefix of length len; element != 0 -> return the prefix of
+    length len; element == 0 -> continue with len - 1.  len starts as the slice length and is only decremented, so the
+    compiler's bounds check of w[len - 1] cannot fail (the interpreter cannot see that invariant; the check is accepted only
+    for exactly this index form)."""
+    rows = set()
+    pre = [o for o in it.run(0, stop=[h]) if o.kind == "stop"]
+    if not pre:
+        return False, {("?", "?", "loop not reachable")}
+    # the counter: the usize local whose value at loop entry is the length of the parameter
+    nz0 = forms.Normalizer(it, pre[0])
+    cnt = [p[0][1] for p, v in pre[0].env.items() if len(p) == 1 and p[0][0] == "L" and b.locals[p[0][1]]["ty"] == "usize"
+           and re.fullmatch(r"\[T\]::len\(&arg1\)|len\(&?arg1\)", C.show_arg(nz0, v) or "")]
+    cnt = [l for l in cnt if l in it._loop_assigned_locals(h)]
+    if len(cnt) != 1:
+        return False, {("?", "?", "no single counter initialised with the slice length (%s)" % cnt)}
+    L = cnt[0]
+    cur = "hv:loop%d:_%d" % (h, L)
+    outs = it.run(h, env=pre[0].env, cons=pre[0].cons, stop_at_entry_again=True, trace=pre[0].trace, invariant=True)
+    for o in outs:
+        nz = forms.Normalizer(it, o)
+        lc = o.cons.get(cur)
+        lencls = "len==0" if lc and lc[0] == "ival" and lc[2] == 0 else "len>0" if lc and lc[0] == "ival" and lc[1] is not None and lc[1] >= 1 else "?"
+        el = "-"
+        for s, c in o.cons.items():
+            m = re.fullmatch(r"m:arg1\.\[#(\d+)\]", s)
+            if m:
+                iv = it.index_vals[int(m.group(1))]
+                idx_ok = forms.show(nz.form(iv)) == "-1 + %s" % cur
+                el = ("==0" if c == ("eq", absint.I(0)) else "!=0" if c[0] == "notin" and absint.I(0) in c[1] else "?") + ("" if idx_ok else "(at %s)" % forms.show(nz.form(iv)))
+        if o.kind == "return":
+            rv = C.show_arg(nz, o.value_at((("L", 0),)))
+            pref = re.fullmatch(r"&\*\{\[T\]::split_at\(&arg1, %s\)\.0\}" % re.escape(cur), rv) is not None
+            act = "return-prefix(len)" if pref else "return %s" % rv[:60]
+        elif o.kind == "stop" and o.info == h:
+            act = "continue-with-len-1" if forms.show(nz.form(o.value_at((("L", L),)))) == "-1 + %s" % cur else "continue-other"
+        elif o.kind == "panic" and str(o.info).startswith("assert:BoundsCheck") and lencls == "len>0":
+            continue   # w[len - 1] with 1 <= len <= w.len()
+        else:
+            act = "%s %s" % (o.kind, o.info)
+        rows.add((lencls, el, act))
+    want = {("len==0", "-", "return-prefix(len)"), ("len>0", "!=0", "return-prefix(len)"), ("len>0", "==0", "continue-with-len-1")}
+    return rows == want, rows
